@@ -974,6 +974,93 @@ func (e *Exec) queryDisagreement(ctx sdk.Context, s *Snapshot) (kind int) {
 	return 0
 }
 
+func oracleQueryDisagreement(c *Chain, ctx sdk.Context, nvals int) (bad bool) {
+	defer func() {
+		if r := recover(); r != nil {
+			bad = true
+		}
+	}()
+	ok := c.App.OracleKeeper
+	goctx := sdk.WrapSDKContext(ctx)
+	// paged lists (2 per page)
+	var pv []*oracletypes.AggregatePrevote
+	var key []byte
+	for page := 0; page < 10000; page++ {
+		res, err := ok.AggregatePrevotes(goctx, &oracletypes.QueryAggregatePrevotesRequest{Pagination: &query.PageRequest{Key: key, Limit: 2}})
+		if err != nil {
+			return true
+		}
+		pv = append(pv, res.AggregatePrevotes...)
+		if res.Pagination == nil || len(res.Pagination.NextKey) == 0 {
+			break
+		}
+		key = res.Pagination.NextKey
+	}
+	stored := ok.GetAggregatePrevotes(ctx)
+	if len(pv) != len(stored) {
+		return true
+	}
+	for i := range stored {
+		if pv[i].String() != stored[i].String() {
+			return true
+		}
+	}
+	var vs []*oracletypes.AggregateVote
+	key = nil
+	for page := 0; page < 10000; page++ {
+		res, err := ok.AggregateVotes(goctx, &oracletypes.QueryAggregateVotesRequest{Pagination: &query.PageRequest{Key: key, Limit: 2}})
+		if err != nil {
+			return true
+		}
+		vs = append(vs, res.AggregateVotes...)
+		if res.Pagination == nil || len(res.Pagination.NextKey) == 0 {
+			break
+		}
+		key = res.Pagination.NextKey
+	}
+	storedV := ok.GetAggregateVotes(ctx)
+	if len(vs) != len(storedV) {
+		return true
+	}
+	for i := range storedV {
+		if vs[i].String() != storedV[i].String() {
+			return true
+		}
+	}
+	// per validator
+	for i := 0; i < nvals; i++ {
+		val := c.Accts[i].Val().String()
+		p1, err := ok.AggregatePrevote(goctx, &oracletypes.QueryAggregatePrevoteRequest{ValidatorAddress: val})
+		d := ok.GetAggregatePrevote(ctx, val)
+		if err != nil || (d == nil) != (p1.AggregatePrevote == nil) || (d != nil && d.String() != p1.AggregatePrevote.String()) {
+			return true
+		}
+		v1, err := ok.AggregateVote(goctx, &oracletypes.QueryAggregateVoteRequest{ValidatorAddress: val})
+		dv := ok.GetAggregateVote(ctx, val)
+		if err != nil || (dv == nil) != (v1.AggregateVote == nil) || (dv != nil && dv.String() != v1.AggregateVote.String()) {
+			return true
+		}
+		m1, err := ok.MissCount(goctx, &oracletypes.QueryMissCountRequest{ValidatorAddress: val})
+		if err != nil || m1.MissCount != ok.GetMissCount(ctx, val) {
+			return true
+		}
+		f1, err := ok.FeederDelegation(goctx, &oracletypes.QueryFeederDelegationRequest{ValidatorAddress: val})
+		if err != nil || f1.FeederDelegation == nil || f1.FeederDelegation.FeederAddress != ok.GetFeederDelegation(ctx, val).String() {
+			return true
+		}
+	}
+	rp, err := ok.RewardPool(goctx, &oracletypes.QueryRewardPoolRequest{})
+	if err != nil || !rp.Balance.IsEqual(ok.GetRewardPool(ctx)) {
+		return true
+	}
+	ri := ok.GetCurrentRoundInfo(ctx)
+	r1, err := ok.CurrentRoundInfo(goctx, &oracletypes.QueryCurrentRoundInfoRequest{})
+	if (ri == nil) != (err != nil) || (ri != nil && ri.String() != r1.RoundInfo.String()) {
+		return true
+	}
+	return false
+}
+
 func unq(s string) string { return strings.Trim(s, "\"") }
 
 func methodCode(m string) int {
@@ -1100,6 +1187,14 @@ func (e *Exec) snapshot() *Snapshot {
 	}
 	for _, p := range ok.GetAggregatePrevotes(ctx) {
 		s.Prevotes = append(s.Prevotes, [2]string{valInt(p.Voter).String(), p.Hash})
+	}
+	// the oracle's gRPC query server must show the ballots, counters, delegations, pool and round that are stored; a
+	// disagreement appears as a prevote of the (non-existent) validator -7, which no model state has
+	if oracleQueryDisagreement(c, ctx, len(e.H.Genesis.Powers)) {
+		s.Prevotes = append(s.Prevotes, [2]string{"-7", "QUERY-SERVER-DISAGREES"})
+		if os.Getenv("VERIF_DEBUG") != "" {
+			fmt.Fprintf(os.Stderr, "ORACLE-QUERY-DISAGREEMENT height=%d\n", c.Height)
+		}
 	}
 	for _, v := range ok.GetAggregateVotes(ctx) {
 		vs := VoteSnap{Val: valInt(v.Voter)}
